@@ -1225,6 +1225,18 @@ class Cx:
                     isinstance(hi, int):
                 top = hi if isinstance(t.ops[1], ast.LtE) else hi - 1
                 self.assumed.append((ast.unparse(t), repr(mid)))
+                if all(c is not None for c in mid.cells) and \
+                        top < (1 << max(mid.width, 1)) - 1 and not (
+                            lo <= 0 and top >= 0 and (top + 1) & top == 0):
+                    # the value can exceed the asserted bound (not a
+                    # power-of-two range, handled below): whose bits decide
+                    srcs = set()
+                    for c in mid.cells:
+                        for v in c.vars:
+                            srcs.add(v[0][0] if isinstance(v[0], tuple)
+                                     else v[0])
+                    self.narrowed.append((ast.unparse(t), sorted(
+                        map(str, srcs))))
                 if lo <= 0 and top >= 0 and (top + 1) & top == 0 and \
                         isinstance(t.comparators[0], ast.Name):
                     k = top.bit_length()
